@@ -286,9 +286,22 @@ def _direction_pairs(ctx: Ctx, f: Func, pairs: Dict[str, Set[str]]) -> None:
             continue
         # direct control dependence: the transitive closure runs through the loop's back edge (an iteration happens
         # only if the previous one did not raise) and would attribute every store to every direction
-        for c, lab in cfg.control_deps(n):
-            if c.kind == "cond" and isinstance(c.ast, ast.Compare) and isinstance(c.ast.ops[0], ast.Eq) and isinstance(c.ast.comparators[0], ast.Constant) and lab == "T" and "direction" in src(c.ast.left):
+        deps = [(c, lab) for c, lab in cfg.control_deps(n) if c.kind == "cond" and isinstance(c.ast, ast.Compare) and len(c.ast.ops) == 1 and isinstance(c.ast.ops[0], ast.Eq) and isinstance(c.ast.comparators[0], ast.Constant) and "direction" in src(c.ast.left)]
+        for c, lab in deps:
+            if lab == "T":
                 pairs.setdefault(c.ast.comparators[0].value, set()).update(keys)
+        if deps and all(lab == "F" for _c, lab in deps):
+            # the `else` of a test for one direction: whatever else an earlier guard (`direction not in (...)`: raise) lets through
+            adm = None
+            for y in own_nodes(f.node):
+                if isinstance(y, ast.If) and isinstance(y.test, ast.Compare) and len(y.test.ops) == 1 and isinstance(y.test.ops[0], ast.NotIn) and "direction" in src(y.test.left) and y.body and isinstance(y.body[-1], ast.Raise):
+                    v = ctx.folder.fold(y.test.comparators[0], f.module, lenv)
+                    if isinstance(v, (list, tuple, set, frozenset, dict)):
+                        adm = set(v)
+            if adm is not None:
+                rest = adm - {c.ast.comparators[0].value for c, _lab in deps}
+                if len(rest) == 1:
+                    pairs.setdefault(next(iter(rest)), set()).update(keys)
 
 
 def r07_4(ctx: Ctx, rep: Report) -> None:
@@ -479,6 +492,60 @@ def group_test_is_per_address(ctx: Ctx, rep: Report, rid: str = "R07.9") -> None
             rep.violation("functions._add_addgr_to_aces", snippet(c, 60), verdict or "the answer of the group test is not used as a per-address filter", where(f, c), inp="permit ip object-group DEFINED object-group UNDEFINED: the defined group is not expanded")
 
 
+def bindings_booked_by_name(ctx: Ctx, rep: Report, rid: str = "R07.14") -> None:
+    """Every `ip access-group NAME in|out` line of an interface is booked under ITS OWN name: the record that receives the
+    interface is made (or looked up) inside the loop over the binding lines, from that line's name - a record made once
+    per interface from the first line's name books the second ACL's direction under the first ACL."""
+    from .common import callee_of_self_call
+
+    rep.rule(rid)
+    f = ctx.func("ConfigParser._acls_on_interfaces")
+    scope = [f]
+    for x in own_nodes(f.node):
+        if isinstance(x, ast.Call):
+            m = callee_of_self_call(ctx, f, x)
+            if m is not None and m not in scope and m.name.startswith("_"):
+                scope.append(m)
+    n = 0
+    for g in scope:
+        for lp in [x for x in own_nodes(g.node) if isinstance(x, ast.For) and isinstance(x.target, ast.Tuple) and len(x.target.elts) == 2 and all(isinstance(e, ast.Name) for e in x.target.elts)]:
+            name_v = lp.target.elts[0].id
+            inside = {id(y) for b in lp.body for y in ast.walk(b)}
+            # only the innermost (name, direction) loop owns a write
+            for sub_lp in [y for b in lp.body for y in ast.walk(b) if isinstance(y, ast.For)]:
+                inside -= {id(y) for y in ast.walk(sub_lp)}
+            # statements of the loop that write the interface into a record: R.update(...) / R[key] = ...
+            recs = set()
+            for y in ast.walk(lp):
+                if id(y) not in inside:
+                    continue
+                if isinstance(y, ast.Call) and isinstance(y.func, ast.Attribute) and y.func.attr == "update" and isinstance(y.func.value, ast.Name):
+                    recs.add(y.func.value.id)
+                if isinstance(y, ast.Assign) and isinstance(y.targets[0], ast.Subscript) and isinstance(y.targets[0].value, ast.Name):
+                    recs.add(y.targets[0].value.id)
+            for r_ in sorted(recs):
+                n += 1
+                rep.instance()
+                defs_in = [y for y in ast.walk(lp) if id(y) in inside and isinstance(y, (ast.Assign, ast.AnnAssign)) and y.value is not None and any(isinstance(t, ast.Name) and t.id == r_ for t in (y.targets if isinstance(y, ast.Assign) else [y.target]))]
+
+                def chosen_by_name(v: ast.AST) -> bool:
+                    # a lookup in a per-interface table is by the line's name; a fresh record carries the line's name
+                    if isinstance(v, ast.Call) and isinstance(v.func, ast.Attribute) and v.func.attr in ("setdefault", "get") and v.args:
+                        v = v.args[0]
+                    elif isinstance(v, ast.Subscript):
+                        v = v.slice
+                    return any(isinstance(z, ast.Name) and z.id == name_v for z in ast.walk(v))
+
+                if defs_in and all(chosen_by_name(d.value) for d in defs_in):
+                    rep.ok(f"{g.qualname}: record `{r_}`", f"made / looked up inside the loop from `{name_v}` of the binding line", where=where(g, defs_in[0]))
+                else:
+                    outer = [y for y in own_nodes(g.node) if id(y) not in inside and isinstance(y, (ast.Assign, ast.AnnAssign)) and y.value is not None and any(isinstance(t, ast.Name) and t.id == r_ for t in (y.targets if isinstance(y, ast.Assign) else [y.target]))]
+                    at = outer[0] if outer else lp
+                    rep.violation(g.qualname, f"{snippet(at, 60)} ... for {name_v}, ... in {snippet(lp.iter, 20)}", f"the record `{r_}` that receives the interface is made once per interface, outside the loop over the binding lines, and is not chosen by `{name_v}`: with two different ACLs on one interface the second one's direction is booked under the first ACL, and the second ACL has no interface", where(g, at), inp="interface X / ip access-group A in / ip access-group B out")
+    if n == 0:
+        rep.note(f"{rid} no loop over (name, direction) binding lines that writes a record was recognised (not judged)")
+
+
 def sections_keep_every_line(ctx: Ctx, rep: Report, rid: str = "R07.13") -> None:
     """The section dictionary the extraction reads from keeps every line of a section: a child line is any line that
     starts with white space (one blank, two, a tab - not a particular indent), it is added whether or not an equal line
@@ -649,6 +716,7 @@ def run(ctx: Ctx, rep: Report, tier: str) -> None:
     group_test_is_per_address(ctx, rep)
     every_reference_expanded(ctx, rep)
     sections_keep_every_line(ctx, rep)
+    bindings_booked_by_name(ctx, rep)
     # R07.10 a member reaches the ACE through its rendered line: the kind tests single out exactly the network the
     # rendered keyword stands for (C01's classification guards); R07.11 entries are stored in line order (C12 R12.4)
     from .c01 import classification_guards
